@@ -546,17 +546,17 @@ class MetaMessage(BaseMessage):
     def from_bytes(cls, msg_bytes):
         if msg_bytes[0] != 0xff:
             raise ValueError('bytes does not correspond to a MetaMessage.')
+        # The length is a variable length integer. Its last byte is the
+        # first one without the continuation bit (0x80) set.
         scan_end = 2
-        data = []
-        flag = True
-        while flag and scan_end < len(msg_bytes):
+        while scan_end < len(msg_bytes) and msg_bytes[scan_end] & 0x80:
             scan_end += 1
-            length_data = msg_bytes[2:scan_end]
-            length = decode_variable_int(length_data)
-            data = msg_bytes[scan_end:]
-            if length == len(data):
-                flag = False
-        if flag:
+        scan_end += 1
+        if scan_end > len(msg_bytes):
+            raise ValueError('Bad data. Cannot be converted to message.')
+        length = decode_variable_int(list(msg_bytes[2:scan_end]))
+        data = list(msg_bytes[scan_end:])
+        if length != len(data):
             raise ValueError('Bad data. Cannot be converted to message.')
         msg = build_meta_message(msg_bytes[1], data)
         return msg
